@@ -716,6 +716,10 @@ theorem polledAt_phi (Lmax : Nat) {l l' : Lim} {now dt G G' : Nat} (h : PolledAt
     rw [Nat.mul_zero, Nat.add_zero] at p2
     exact ⟨w2, by omega, by omega, by omega⟩
 
+@[simp] theorem fateGrants_granted (p g : Nat) : fateGrants p (.granted g) = [(p, g)] := rfl
+@[simp] theorem fateGrants_asleep (p : Nat) : fateGrants p .asleep = [] := rfl
+@[simp] theorem fateGrants_queued (p : Nat) : fateGrants p .queued = [] := rfl
+
 /-- a limiter *object* evolves by polls at clock `t`; the ghost total counts grants made under a limit only -/
 def Evolves (t : Nat) (c : NObj) (G : Nat) (c' : NObj) (G' : Nat) : Prop :=
   match c with
@@ -771,7 +775,7 @@ theorem limitedTotal_kind {c c' : NObj} (h : c'.isLimited = c.isLimited) (gs : L
 /-- a request entering the current object -/
 theorem enterCur_evolves (p now : Nat) (c : NObj) (G : Nat) :
     Evolves now c G (enterCur p now c).1
-      (G + limitedTotal c (match (enterCur p now c).2 with | .granted g => [(p, g)] | _ => [])) := by
+      (G + limitedTotal c (fateGrants p (enterCur p now c).2)) := by
   cases c with
   | unlimited b l => exact ⟨rfl, by simp [limitedTotal]⟩
   | limited o =>
@@ -805,7 +809,7 @@ theorem enterChain_cur (p now : Nat) : ∀ (olds : List NObj) (cur : NObj),
 
 theorem enterChain_evolves (p now : Nat) (olds : List NObj) (cur : NObj) (G : Nat) :
     Evolves now cur G (enterChain p now olds cur).2.1
-      (G + limitedTotal cur (match (enterChain p now olds cur).2.2 with | .granted g => [(p, g)] | _ => [])) := by
+      (G + limitedTotal cur (fateGrants p (enterChain p now olds cur).2.2)) := by
   rcases enterChain_cur p now olds cur with ⟨h1, h2⟩ | ⟨h1, h2⟩
   · rw [h1, h2]; simpa [limitedTotal_nil] using Evolves.rfl' now cur G
   · rw [h1, h2]; exact enterCur_evolves p now cur G
@@ -817,17 +821,17 @@ theorem enterAll_evolves (now : Nat) : ∀ (ps : List Nat) (olds : List NObj) (c
     have h1 := enterChain_evolves p now olds cur G
     have hk := h1.kind
     have h2 := enterAll_evolves now ps (enterChain p now olds cur).1 (enterChain p now olds cur).2.1
-      (G + limitedTotal cur (match (enterChain p now olds cur).2.2 with | .granted g => [(p, g)] | _ => []))
+      (G + limitedTotal cur (fateGrants p (enterChain p now olds cur).2.2))
     rw [limitedTotal_kind hk] at h2
     have h := h1.trans h2
     simp only [enterAll]
     cases hf : (enterChain p now olds cur).2.2 with
     | granted n =>
-      simp only [hf] at h ⊢
+      simp only [hf, fateGrants_granted] at h ⊢
       rw [limitedTotal_cons, ← Nat.add_assoc]
       exact h
-    | asleep => simp only [hf, limitedTotal_nil, Nat.add_zero] at h ⊢; exact h
-    | queued => simp only [hf, limitedTotal_nil, Nat.add_zero] at h ⊢; exact h
+    | asleep => simp only [hf, fateGrants_asleep, limitedTotal_nil, Nat.add_zero] at h ⊢; exact h
+    | queued => simp only [hf, fateGrants_queued, limitedTotal_nil, Nat.add_zero] at h ⊢; exact h
 
 theorem cascade_polled (now : Nat) : ∀ (q : List Nat) (lim : Lim) (G : Nat),
     PolledAt now lim G (cascade lim now q).1.lim (G + (cascade lim now q).2.length * minBucket) ∧
@@ -1282,14 +1286,14 @@ theorem enterChain_perm (p now : Nat) : ∀ (olds : List NObj) (cur : NObj),
     cases hh : o.holder with
     | some h =>
       simp only [fateServed, pendingAll, List.flatMap_cons, waiting_limited, List.nil_append]
-      have hw : waitingList { o with queue := o.queue ++ [p] } = waitingList o ++ [p] := by
-        simp [waitingList]
-      rw [hw, List.append_assoc, List.append_assoc, List.append_assoc]
+      have hw : waitingList { lim := o.lim, holder := some h, queue := o.queue ++ [p] } = waitingList o ++ [p] := by
+        simp [waitingList, hh]
+      rw [hw]
+      simp only [List.append_assoc]
       apply List.Perm.append_left
-      -- [p] ++ (rest… ++ cur…) ~ (rest… ++ cur…) ++ [p]
+      -- [p] ++ (rest… ++ cur…) ~ rest… ++ (cur… ++ [p])
       have := List.perm_append_comm (l₁ := [p]) (l₂ := rest.flatMap NObj.waiting ++ cur.waiting)
-      rw [List.append_assoc] at this
-      exact this
+      simpa only [List.append_assoc] using this
     | none =>
       have ih := enterChain_perm p now rest cur
       simp only [pendingAll, List.flatMap_cons, List.append_assoc] at ih ⊢
@@ -1317,5 +1321,128 @@ theorem enterAll_perm (now : Nat) : ∀ (ps : List Nat) (olds : List NObj) (cur 
     | granted n => simpa [hf, fateServed] using hgoal
     | asleep => simpa [hf, fateServed] using hgoal
     | queued => simpa [hf, fateServed] using hgoal
+
+theorem holderPoll_waiting (o : LObj) (now : Nat) :
+    (o.holderPoll now).2 ++ waitingList (o.holderPoll now).1 = waitingList o := by
+  unfold LObj.holderPoll
+  cases hh : o.holder with
+  | none => simp
+  | some h =>
+    simp only []
+    split
+    · simp [waitingList, hh]
+    · have c := (cascade_spec now o.queue (Rate.poll o.lim now).1).1
+      simp only [List.cons_append, c]
+      simp [waitingList, hh]
+
+theorem wakeCur_perm (now : Nat) (c : NObj) :
+    ((wakeCur now c).2.map (·.1) ++ (wakeCur now c).1.waiting).Perm c.waiting := by
+  cases c with
+  | unlimited b l => simp [wakeCur]
+  | limited o =>
+    have h := holderPoll_waiting o now
+    have hm : ((o.holderPoll now).2.map (·, minBucket)).map (·.1) = (o.holderPoll now).2 := by
+      simp [List.map_map, Function.comp_def]
+    show ((((o.holderPoll now).2.map (·, minBucket)).map (·.1)) ++ waitingList (o.holderPoll now).1).Perm (waitingList o)
+    rw [hm, h]
+
+theorem split_at_getElem? : ∀ (l : List NObj) (i : Nat) (x : NObj), l[i]? = some x →
+    l = l.take i ++ x :: l.drop (i + 1)
+  | [], i, x, h => by simp at h
+  | y :: l, 0, x, h => by simp at h; simp [h]
+  | y :: l, i + 1, x, h => by
+    have ih := split_at_getElem? l i x (by simpa using h)
+    simp only [List.take_succ_cons, List.drop_succ_cons, List.cons_append]
+    rw [← ih]
+
+theorem wakeOld_perm (now i : Nat) (olds : List NObj) (cur : NObj) :
+    ((wakeOld now i olds cur).2.2.map (·.1) ++ pendingAll (wakeOld now i olds cur).1 (wakeOld now i olds cur).2.1).Perm
+      (pendingAll olds cur) := by
+  cases ho : olds[i]? with
+  | none => simp [wakeOld, ho]
+  | some x =>
+    cases x with
+    | unlimited b l => simp [wakeOld, ho]
+    | limited o =>
+      have hsplit := split_at_getElem? olds i (.limited o) ho
+      have he := enterAll_perm now (o.holder.toList ++ o.queue) (olds.drop (i + 1)) cur
+      simp only [wakeOld, ho]
+      generalize enterAll now (o.holder.toList ++ o.queue) (olds.drop (i + 1)) cur = r at he ⊢
+      have hold : pendingAll olds cur =
+          (olds.take i).flatMap NObj.waiting ++ (waitingList o ++ pendingAll (olds.drop (i + 1)) cur) := by
+        conv => lhs; rw [hsplit]
+        simp [pendingAll, List.flatMap_append, List.flatMap_cons, waiting_limited, List.append_assoc]
+      have hnew : pendingAll (olds.take i ++ [.limited { o with holder := none, queue := [] }] ++ r.1) r.2.1 =
+          (olds.take i).flatMap NObj.waiting ++ pendingAll r.1 r.2.1 := by
+        simp [pendingAll, List.flatMap_append, waiting_limited, waitingList, List.append_assoc]
+      rw [hold, hnew]
+      refine (perm_swap_head _ _ _).trans (List.Perm.append_left _ ?_)
+      refine he.trans ?_
+      exact List.perm_append_comm
+
+/-! #### runs with the order of arrival and of service as ghost lists -/
+
+structure NGhost where
+  net : Net
+  arrivals : List Nat        -- ghost: pollers in the order of their `take_tokens()` calls
+  served : List Nat          -- ghost: pollers in the order in which they were granted tokens
+
+def gstep (s : NGhost) : NOp → NGhost
+  | .poll pid dt =>
+    let r := s.net.poll pid dt
+    { net := r.1,
+      arrivals := if (findPending pid s.net.objs 0).isNone then s.arrivals ++ [pid] else s.arrivals,
+      served := s.served ++ r.2.map (·.1) }
+  | .setLimit k => { s with net := s.net.setLimit k }
+
+def grun (s : NGhost) (ops : List NOp) : NGhost := ops.foldl gstep s
+
+def NGhost.Inv (s : NGhost) : Prop := (s.served ++ pendingAll s.net.olds s.net.cur).Perm s.arrivals
+
+theorem gstep_inv (s : NGhost) (op : NOp) (h : s.Inv) : (gstep s op).Inv := by
+  unfold NGhost.Inv at h ⊢
+  cases op with
+  | setLimit k =>
+    simp only [gstep, Net.setLimit]
+    cases Rate.setLimit s.net.cur.limiter k <;>
+      simpa [pendingAll, List.flatMap_append, waiting_limited, waiting_unlimited, waitingList] using h
+  | poll pid dt =>
+    simp only [gstep, Net.poll]
+    cases hf : findPending pid s.net.objs 0 with
+    | none =>
+      simp only [Option.isNone_none, if_true]
+      have he := enterCur_perm pid (s.net.now + dt) s.net.cur
+      have hm : ∀ f : Fate, List.map (fun x : Nat × Nat => x.1) (fateGrants pid f) = fateServed pid f := by
+        intro f; cases f <;> simp [fateServed, fateGrants]
+      rw [hm]
+      simp only [pendingAll] at h he ⊢
+      -- served ++ fs ++ (olds… ++ cur'…) ~ arrivals ++ [pid]
+      rw [List.append_assoc]
+      refine (List.Perm.append_left _ (perm_swap_head _ _ _)).trans ?_
+      refine (List.Perm.append_left _ (List.Perm.append_left _ he)).trans ?_
+      rw [← List.append_assoc, ← List.append_assoc]
+      exact List.Perm.append_right _ (by rw [List.append_assoc]; exact h)
+    | some ib =>
+      obtain ⟨i, b⟩ := ib
+      cases b with
+      | false => simpa using h
+      | true =>
+        simp only [Option.isNone_some, Bool.false_eq_true, if_false]
+        split
+        · have hw := wakeOld_perm (s.net.now + dt) i s.net.olds s.net.cur
+          rw [List.append_assoc]
+          exact (List.Perm.append_left _ hw).trans h
+        · have hw := wakeCur_perm (s.net.now + dt) s.net.cur
+          simp only [pendingAll] at h ⊢
+          rw [List.append_assoc]
+          refine (List.Perm.append_left _ (perm_swap_head _ _ _)).trans ?_
+          exact (List.Perm.append_left _ (List.Perm.append_left _ hw)).trans h
+
+theorem grun_inv : ∀ (ops : List NOp) (s : NGhost), s.Inv → (grun s ops).Inv
+  | [], _, h => h
+  | op :: r, s, h => by
+    have hr : grun s (op :: r) = grun (gstep s op) r := by simp [grun]
+    rw [hr]
+    exact grun_inv r _ (gstep_inv s op h)
 
 end AioslskVerif.Rate
